@@ -2,6 +2,7 @@ SPECIFICATION TraceSpec
 CONSTANTS
   Files = {"a", "b", "c"}
   MaxCancels = 1
+  DP = "d"
   Configs = {}
 INVARIANTS TypeOK SemInv NoFalseCycle CycleIff OkIff FaultFails OkClosed PanicSurfaces
 POSTCONDITION TraceAccepted
